@@ -4,8 +4,11 @@ Real code executed: AbstractEnsembleSolver.__update_bestSolver/__update_state/_a
 _all_bestSolution/_total_iters on real Lattice/Buckshot solvers whose members are real solver objects with symbolic
 results; LatticeSolver._InitialPoints, BuckshotSolver._InitialPoints, math.grid.gridpts/samplepts/randomly_bin,
 math.samples.random_samples/_random_samples.
-NOT claimed (see DESIGN.md section 6): whole ensemble solves (members are deep-copied live solvers run to convergence:
-unbounded loops over symbolic state), member configuration transfer, fillpts (SparsitySolver).
+Whole tiny solves (whole-solve/*): AbstractEnsembleSolver._Solve/__get_solver_instance/__init_allSolvers/__update_allSolvers,
+LatticeSolver/BuckshotSolver through SetNestedSolver/SetStrictRanges/SetConstraints/SetPenalty/SetEvaluationLimits/Solve with
+real NM / Powell members (deep-copied by mystic) for 1-2 generations.
+NOT claimed (see DESIGN.md section 6): larger ensembles and longer member runs (unbounded loops over symbolic state),
+fillpts (SparsitySolver), the wrappers' return tuples.
 """
 import itertools
 from symex.engine import Instance
@@ -22,10 +25,10 @@ ASSUMPTIONS = [
     'members are real NM / DE solver objects whose bestEnergy / bestSolution / counters are set to solver-chosen values (ties allowed); the ensemble reduction code is real',
     'two rounds of reduction (step mode): between them the SAME member objects get new solver-chosen results (DE members update bestSolution in place)',
     'lattice / buckshot starting points: strict box symbolic with lower < upper; bin layouts enumerated; random draws are solver variables',
-    'whole ensemble solves, member configuration transfer and the sparsity point generator (fillpts) are outside the claim',
+    'whole solves: 2-3 members, NM / Powell members (Powell: Brent by contract), generation limit 1-2, in-process map; constraints deterministic, idempotent, box-preserving; larger ensembles and the sparsity point generator (fillpts) are outside the claim',
 ]
-BOUNDS = {'quick': dict(members='1..3', bins='<= (3,2) / (2,2,2); N <= 12', gridpts='<= 3x3x2'),
-          'thorough': dict(members='1..4', bins='<= (3,3) / (2,2,2); N <= 30', gridpts='<= 3x3x3')}
+BOUNDS = {'quick': dict(members='1..3', bins='<= (3,2) / (2,2,2); N <= 12', gridpts='<= 3x3x2', whole_solves='2 members x 1 generation'),
+          'thorough': dict(members='1..4', bins='<= (3,3) / (2,2,2); N <= 30', gridpts='<= 3x3x3', whole_solves='2-3 members x 1-2 generations')}
 BUDGET = {'quick': 1800, 'thorough': 3600}
 
 
